@@ -4,6 +4,13 @@ Theorems: Props/C01.v.  Correspondence: all figures (header counts, constraint
 lines, comments) of the real ShExC output vs the model's.  Oracle: every figure
 recomputed from the abstract triples (pipespec.check_figures), independent of
 model and code.
+
+Streams: random graphs x configurations (pipeprops.gen_basic); shape-map runs
+(pipemap.stream); literal_and_tau_cases / literal_and_tau_map_cases: literals spelled
+like the IRI or blank-node label of a selected node, a class or a property (they are
+literal values of their subject and nothing for the node they spell: the model's graph
+keeps a literal's datatype, Spec/Rdf.v) and custom instantiation properties under
+which rdf:type is an ordinary multi-valued property (cardinalities {2}, {3}, '+').
 """
 import random
 
@@ -125,7 +132,13 @@ class Spec(pipeprops.PropSpec):
             "literal datatypes incl. language tags, untyped/typed IRI and BNode values, general and schema-consistent) x "
             "all 2^6 inference-switch assignments round-robin x thresholds on every k/n boundary x report modes x "
             "targets/all-classes x caps x namespace dictionaries; distinct = distinct (document, configuration); "
-            "non-trivial = some class with >= 2 instances and some non-typing triple")
+            "non-trivial = some class with >= 2 instances and some non-typing triple; plus shape-map runs (vp.pipemap); "
+            "plus, as class-target and as shape-map runs, the same graphs with 1-4 literals spelled like the IRI / "
+            "blank-node label of a typed node, an object, a class or a property (plain, ^^xsd:string, xsd:anyURI, @en), "
+            "with a custom instantiation property (ex:kind, wdt:P31, oth:isA) under which rdf:type is an ordinary "
+            "property with 0-5 values per node, and with both (counts under coverage.shape_map_stream, keys c01:*)")
+    literal_contents = ("literal contents are alphanumeric, or the IRI / blank-node label of a node, a class or a "
+                        "property of the document (no character that N-Triples escapes)")
     assumptions = ["figures on lines rewritten {k>1} -> '+' by disable_exact_cardinality are accepted when they equal "
                    "the figure of '+' or of some exact cardinality k>1 of the same (property, kind) (documented behaviour)"]
 
